@@ -746,6 +746,23 @@ func (w *VerifWorld) autoRelease() {
 	w.sto.gateOpen, w.sto.gateRead = false, false
 	w.sto.release.Broadcast()
 	w.sto.mu.Unlock()
+	w.waitGatesPassed()
+}
+
+// waitGatesPassed waits until every goroutine that was parked on a gate which is open now has actually
+// left it, so that the "blocked" counters used by settle() are current.
+func (w *VerifWorld) waitGatesPassed() {
+	deadline := time.Now().Add(2 * time.Second)
+	for time.Now().Before(deadline) {
+		w.sto.mu.Lock()
+		pending := (!w.sto.gateOpen && w.sto.blockedOpen > 0) || (!w.sto.gateWrite && w.sto.blockedWrite > 0) ||
+			(!w.sto.gateRead && w.sto.blockedRead > 0)
+		w.sto.mu.Unlock()
+		if !pending {
+			return
+		}
+		time.Sleep(50 * time.Microsecond)
+	}
 }
 
 // call runs a public-API call that hands a command to the loop; false = the loop did not take it in 5 s.
@@ -1093,6 +1110,7 @@ func (w *VerifWorld) Op(op string) string {
 		}
 		w.sto.release.Broadcast()
 		w.sto.mu.Unlock()
+		w.waitGatesPassed()
 	case "mutate":
 		// external change of the files while the torrent is stopped
 		if len(w.t.files) != 0 || w.t.errC != nil {
